@@ -68,6 +68,23 @@ def m_defaultdict(factory):
     return DD()
 
 
+def bind_module_constants(tree, env):
+    """Evaluate module-level `NAME = <expr>` statements whose value is computable from literals, earlier
+    constants and the model classes already in env (lookup tables, literal lists, BlackBox definitions)."""
+    from .minieval import MiniEval
+
+    for st in tree.body:
+        if isinstance(st, ast.Assign) and len(st.targets) == 1 and isinstance(st.targets[0], ast.Name):
+            name = st.targets[0].id
+            if name in env:
+                continue
+            me = MiniEval(env)
+            try:
+                env[name] = me.ev(st.value)
+            except (Unsupported, ModelRaise, Exception):
+                continue
+
+
 class Package:
     """All module environments of one repository snapshot."""
 
@@ -131,6 +148,7 @@ class Package:
         bi = BlockInterp(env, max_steps=self.max_steps)
         bi.me.env = env  # share the dict: closures see functions defined later in the module
         tree = self.repo.tree[rel]
+        bind_module_constants(tree, env)
         for st in tree.body:
             if isinstance(st, ast.FunctionDef):
                 key = (rel, st.name)
